@@ -54,7 +54,6 @@ var ExactOps = []string{"append", "unweld", "remove_unref", "remove_null", "flip
 	"rotate", "apply_trs", "center", "slice", "scale_along_normal"}
 var FrameOps = []string{"normalize3", "normalize2", "smooth_normals", "flat_normals", "smooth_implicit", "laplacian", "laplacian_axis"}
 
-
 func IsFrameOp(op string) bool {
 	for _, f := range FrameOps {
 		if f == op {
@@ -529,6 +528,15 @@ func randTRS(r *hx.Rng) TRSDesc {
 	return t
 }
 
+// opVariants: "" function, "t" Transformer struct, "m" Mesh method, "p"/"q" generic (parallel) modifier, "c" Copy*
+var opVariants = map[string][]string{
+	"unweld": {"", "t"}, "remove_unref": {"", "t"}, "remove_null": {"", "t"}, "flip": {"", "t"},
+	"filter": {"", "t"}, "crop": {"", "t"}, "translate": {"", "t", "m", "p", "q"}, "scale3": {"", "t", "m"},
+	"scale2": {"", "t", "p"}, "set_attr": {"", "", "c"}, "rotate": {"", "t", "m"}, "center": {"", "t"}, "normalize3": {"", "t"},
+	"normalize2": {"", "t"}, "smooth_normals": {"", "t"}, "flat_normals": {"", "t"},
+	"smooth_implicit": {"", "t"}, "laplacian": {"", "t"}, "scale_along_normal": {"", "t"}, "laplacian_axis": {""}, "slice": {"", "t"},
+}
+
 // RandomOp draws an operation that mostly fits the mesh d (about one in ten does not: wrong
 // topology or missing attribute, to exercise the declared failures).
 func RandomOp(r *hx.Rng, d Desc, kinds []string) OpDesc {
@@ -567,14 +575,7 @@ func RandomOp(r *hx.Rng, d Desc, kinds []string) OpDesc {
 		}
 	}
 	o := OpDesc{Op: op}
-	variants := map[string][]string{
-		"unweld": {"", "t"}, "remove_unref": {"", "t"}, "remove_null": {"", "t"}, "flip": {"", "t"},
-		"filter": {"", "t"}, "crop": {"", "t"}, "translate": {"", "t", "m", "p", "q"}, "scale3": {"", "t", "m"},
-		"scale2": {"", "t", "p"}, "set_attr": {"", "", "c"}, "rotate": {"", "t", "m"}, "center": {"", "t"}, "normalize3": {"", "t"},
-		"normalize2": {"", "t"}, "smooth_normals": {"", "t"}, "flat_normals": {"", "t"},
-		"smooth_implicit": {"", "t"}, "laplacian": {"", "t"}, "scale_along_normal": {"", "t"}, "laplacian_axis": {""}, "slice": {"", "t"},
-	}
-	if vs, ok := variants[op]; ok {
+	if vs, ok := opVariants[op]; ok {
 		o.Variant = hx.Pick(r, vs)
 	}
 	switch op {
